@@ -151,11 +151,39 @@ def run(ctx):
                 cases.append({"s": "15-03-%02d" % yy, "langs": ["en"], "settings": {"RELATIVE_BASE": b, "PREFER_DATES_FROM": pref, "DATE_ORDER": "DMY", "TIMEZONE": "UTC"},
                               "expect": expect_str(D(y2, 3, 15)), "stratum": "two-digit-year/" + pref})
 
+    def parse_got(got):
+        try:
+            return dt.datetime.strptime(got.split("|")[0], "%Y-%m-%d %H:%M:%S.%f")
+        except Exception:  # noqa
+            return None
+
     def known_key(c, got):
-        if c.get("_rule"):
+        """a recorded finding only excuses the *specific wrong value* the recorded defect produces"""
+        g = parse_got(got) if isinstance(got, str) else None
+        exp = parse_got(c["expect"]) if isinstance(c["expect"], str) else None
+        if g is None or exp is None:
+            return None
+        b = c["settings"]["RELATIVE_BASE"]
+        pm = c["settings"].get("PREFER_MONTH_OF_YEAR", "current")
+        # the defect: after the shift, the month is overwritten by the preferred month (day kept; December when it does not fit)
+        target = {"current": b.month, "first": 1, "last": 12}[pm]
+        def pulled(x):
+            try:
+                return x.replace(month=target)
+            except ValueError:
+                return x.replace(month=12)
+        if c.get("_rule") and g == pulled(exp):
             return {"rule": c["_rule"]}
         if c.get("_off") and c.get("_localdate_differs"):
-            return {"rule": "time-only-candidate-day-is-utc-date"}
+            # the defect: candidate on the reference's naive date, shifted by the code's UTC comparison
+            off = dt.timedelta(seconds=c["_off"]); pref = c["settings"]["PREFER_DATES_FROM"]
+            cand = b.replace(hour=exp.hour, minute=exp.minute, second=0, microsecond=0)
+            if pref == "past" and b < cand - off:
+                cand -= dt.timedelta(days=1)
+            if pref == "future" and b > cand - off:
+                cand += dt.timedelta(days=1)
+            if g == cand or g == pulled(cand):
+                return {"rule": "time-only-candidate-day-is-utc-date"}
         return None
     res = decide(ctx, cases, model_share=0.5 if tier == "quick" else 0.1, known_key=known_key)
     return res
